@@ -3,6 +3,7 @@
 #include <cppcms/base64.h>
 #include <cppcms/filters.h>
 #include <booster/locale/format.h>
+#include <cppcms/form.h>
 #include <streambuf>
 #include <sstream>
 #include <string.h>
@@ -23,6 +24,36 @@ struct tiny_buf : public std::streambuf {
 	int overflow(int c){ data.append(pbase(),pptr()-pbase()); setp(b,b+1); if(c!=EOF) data+=char(c); return 0; }
 	int sync(){ overflow(EOF); return 0; }
 };
+
+
+// ---- form widget rendering: render a widget with `val` in the slot `kind`, return the rendered HTML
+static std::string render_widget(std::string const &kind,std::string const &val,int mode)
+{
+	std::ostringstream out;
+	cppcms::form_context ctx(out, mode&1 ? cppcms::form_flags::as_xhtml : cppcms::form_flags::as_html,
+	                         (mode&2) ? cppcms::form_flags::as_table : cppcms::form_flags::as_p);
+	using namespace cppcms::widgets;
+	if(kind=="text_value") { text w; w.name("n"); w.value(val); w.render(ctx); }
+	else if(kind=="text_value_input") { text w; w.name("n"); w.value(val); w.render_input(ctx); }
+	else if(kind=="textarea_value") { textarea w; w.name("n"); w.value(val); w.render(ctx); }
+	else if(kind=="hidden_value") { hidden w; w.name("n"); w.value(val); w.render(ctx); }
+	else if(kind=="message") { text w; w.name("n"); w.message(val); w.render(ctx); }
+	else if(kind=="help") { text w; w.name("n"); w.help(val); w.render(ctx); }
+	else if(kind=="error_message") { text w; w.name("n"); w.error_message(val); w.valid(false); w.render(ctx); }
+	else if(kind=="checkbox_ident") { checkbox w; w.name("n"); w.identification(val); w.render(ctx); }
+	else if(kind=="submit_value") { submit w; w.name("n"); w.value(val); w.render(ctx); }
+	else if(kind=="select_id") { cppcms::widgets::select w; w.name("n"); w.add("shown",val); w.add("other","o2"); w.render(ctx); }
+	else if(kind=="select_text") { cppcms::widgets::select w; w.name("n"); w.add(val,"id1"); w.add("other","o2"); w.selected_id("id1"); w.render(ctx); }
+	else if(kind=="select_tr_text") { cppcms::widgets::select w; w.name("n"); w.add(booster::locale::message(val),"id1"); w.render(ctx); }
+	else if(kind=="multi_id") { select_multiple w; w.name("n"); w.add("shown",val,true); w.add("other","o2"); w.render(ctx); }
+	else if(kind=="multi_text") { select_multiple w; w.name("n"); w.add(val,"id1"); w.add("z","o2",true); w.render(ctx); }
+	else if(kind=="multi_tr_text") { select_multiple w; w.name("n"); w.add(booster::locale::message(val),"id1"); w.render(ctx); }
+	else if(kind=="radio_id") { radio w; w.name("n"); w.add("shown",val); w.add("other","o2"); w.render(ctx); }
+	else if(kind=="radio_text") { radio w; w.name("n"); w.add(val,"id1"); w.add("other","o2"); w.selected_id("o2"); w.render(ctx); }
+	else if(kind=="radio_tr_text") { radio w; w.name("n"); w.add(booster::locale::message(val),"id1"); w.render(ctx); }
+	else return "BAD-KIND";
+	return out.str();
+}
 
 int main()
 {
@@ -99,6 +130,21 @@ int main()
 			bool canary=true; for(int i=cap;i<cap+8;i++) if(buf[i]!=0xA5) canary=false;
 			std::string r(reinterpret_cast<char*>(&buf[0]),e-&buf[0]);
 			if(!canary || (ds>=0 && (e-&buf[0])!=ds)) out<<"bdecp OVERRUN "<<hex(r)<<" ds="<<ds; else out<<"bdecp "<<hex(r);
+		}
+		else if(v.size()==4 && v[0]=="form") {
+			// the widget rendered with the payload must equal the widget rendered with a harmless placeholder, with the
+			// placeholder replaced by one byte string (printed: what stands in the value's place)
+			static const std::string ph="ZqPLACEHOLDERqZ";
+			std::string val=unhex(v[3]); int mode=atoi(v[2].c_str());
+			std::string a=render_widget(v[1],ph,mode), b=render_widget(v[1],val,mode);
+			size_t pos=a.find(ph);
+			if(a=="BAD-KIND" || pos==std::string::npos || a.find(ph,pos+1)!=std::string::npos) out<<"form NO-PLACEHOLDER "<<hex(a);
+			else {
+				std::string pre=a.substr(0,pos), suf=a.substr(pos+ph.size());
+				if(b.size()<pre.size()+suf.size() || b.compare(0,pre.size(),pre)!=0 || b.compare(b.size()-suf.size(),suf.size(),suf)!=0)
+					out<<"form STRUCTURE-DIFFERS "<<hex(b);
+				else out<<"form "<<hex(b.substr(pre.size(),b.size()-pre.size()-suf.size()));
+			}
 		}
 		else if(v.size()==2 && v[0]=="esz") out<<"esz "<<cppcms::b64url::encoded_size(strtoull(v[1].c_str(),0,10));
 		else if(v.size()==2 && v[0]=="dsz") out<<"dsz "<<cppcms::b64url::decoded_size(strtoull(v[1].c_str(),0,10));
